@@ -77,6 +77,9 @@ var c14Hostile = []string{
 	// quoted code held by a global (one line per binding whatever the code looks like), and the length limit applied to functions too
 	`q1 = quote(if a {1} else {2}); q2 = quote(func(x) {y = x; y + 1}); q3 = [quote(for i = 3 {println(i)})]; q4 = quote(a + b)`,
 	`func longf(x) {"0123456789012345678901234567890123456789012345678901234567890123456789"}; shortv = 1`,
+	// predefined library names re-bound by the session
+	`abs = x => x * x; log2 = 42; func str(x) {"<" + sprintf("%v", x) + ">"}`,
+	`keys = 7; printf = nil; func max3(a, b, c) {max(a, b, c)}`,
 	// named functions held inside containers while their name is bound to something else by now
 	`func fq(x) {x + 1}; zq = [fq, {"k": fq}]; fq = 3`,
 	`func fq2(x) {x + 1}; zq2 = {"k": fq2, "l": [fq2]}; func fq2(x) {x + 2}`,
@@ -266,6 +269,40 @@ func (p c14) check(c *fw.Ctx, build []string, maxLen int) (kind, detail string, 
 			}
 			if !gt.Same(a.val, b.val) {
 				return "value-differs:" + ld.name, fmt.Sprintf("global %s: original %s, reloaded %s", name, valStr(a.val), valStr(b.val)), n, file
+			}
+		}
+		// what the file does not mention (predefined names) must not have been changed by the session either: every global
+		// of the original session reads the same in the reloaded one (checked without a length limit; values too deep or
+		// too long to be written are left out by design)
+		if maxLen == 0 {
+			inFile := map[string]bool{}
+			for _, nm := range names {
+				inFile[nm] = true
+			}
+			if g := orig.eval("info.globals", time.Second); !g.isErr {
+				if gm, ok := g.val.(*gt.Map); ok {
+					for _, kv := range gm.P {
+						nm, _ := kv.K.(string)
+						if nm == "" || inFile[nm] || strings.HasPrefix(nm, "zz_") {
+							continue
+						}
+						oa, ob := orig.evalObj(nm), ss.evalObj(nm)
+						if oa == nil {
+							continue
+						}
+						ta := oa.Inspect()
+						if len(ta) > 9000 || strings.Contains(ta, "...") {
+							continue
+						}
+						if ob == nil || ob.Inspect() != ta {
+							tb := "<unbound>"
+							if ob != nil {
+								tb = ob.Inspect()
+							}
+							return "not-saved:" + ld.name, fmt.Sprintf("global %s is not in the file: original %s, reloaded %s", nm, clip(ta), clip(tb)), n, file
+						}
+					}
+				}
 			}
 		}
 		// second save of the reloaded state is byte-identical (before any function is called)
